@@ -224,7 +224,8 @@ Visit(fs, p, recursive, follow) ==
    IF recursive THEN Closure(fs, {p}, follow, 8)
    ELSE IF follow THEN LinkChain(fs, {p}, 8) ELSE {p}
 
-HasChain(fs, V) == \E x \in V : IsLink(fs, x) /\ Exists(fs, fs[x].t) /\ IsLink(fs, fs[x].t)
+\* with follow only "clean" links are settled: the target exists, is not itself a link, and still has the kind recorded with the link
+HasChain(fs, V) == \E x \in V : IsLink(fs, x) /\ (~Exists(fs, fs[x].t) \/ IsLink(fs, fs[x].t) \/ TK(fs, fs[x].t) # fs[x].tk)
 \* co = [dm, fm (0 = unset), sym (char seq), recursive, follow]; SymOf(kind, mode, sym) from ChmodSym
 ChmodTargets(fs, p, co) == {x \in Visit(fs, p, co.recursive, co.follow) : ~IsLink(fs, x)}
 Op_chown_b(st, p, co) == LET fs == st.fs IN
